@@ -102,7 +102,7 @@ func TestSelfIewalkHandAnalysed(t *testing.T) {
 				}
 			}
 			for _, ie := range p1.IEs[len(p0.IEs):] {
-				if ie.ID < 300 || ie.Criticality != 1 {
+				if ie.ID < 300 || ie.ID > 60299 || ie.Criticality != 1 {
 					t.Fatalf("later-release IE id %d criticality %d", ie.ID, ie.Criticality)
 				}
 			}
